@@ -4,7 +4,7 @@
    correspondence run) and the documented effects; the theorems say they coincide for ALL lists. *)
 From Coq Require Import List Arith Bool.
 From BS Require Import Base.Sexp Model.Heap Model.Edit Spec.Tree Spec.ListEdit
-  Proofs.HeapBasics Proofs.ExtractRep Proofs.InsertRep Proofs.ListEditProofs Proofs.EditBase Proofs.EditRep Proofs.EditEffect Model.EditOps.
+  Model.Iter Proofs.HeapBasics Proofs.Views Proofs.EditFrames Proofs.ExtractRep Proofs.InsertRep Proofs.ListEditProofs Proofs.EditBase Proofs.EditRep Proofs.EditEffect Proofs.EditConserve Model.EditOps.
 Import ListNotations.
 
 (* a successful _insert of a parentless child puts it at the requested (clipped) index *)
@@ -136,3 +136,345 @@ Theorem C02_replace_with_documented : forall s self p args cs s',
   kids (hp s' p) = replace_spec self cs (kids (hp s p)).
 Proof. exact op_replace_with_documented. Qed.
 Print Assumptions C02_replace_with_documented.
+
+(* ---- conservation, one place per element, and the documented effect of every remaining call (Proofs/EditConserve.v) ----
+   "No element is ever duplicated or lost (only decompose destroys), and no element occupies two places":
+   C02_op_conserves / C02_history_conserves(_or) / C02_op_live_exact (the live set after a non-destroying call is exactly
+   the old live set plus the ids allocated by the call; smooth() destroys nothing, only decompose and clear(decompose=True)
+   do, and exactly the subtree), C02_one_place(_forest) / C02_history_one_place.  The *_documented theorems give, for
+   extract, append, extend (list and Tag, also extend(self)), wrap, unwrap, clear, .string=, decompose, and for calls whose
+   arguments mix strings and elements, the child list of every element and the parent of every element after the call;
+   the old parent of a moved argument loses exactly that argument (the naive frame "only target, parent and arguments
+   change" is false: Example ex_frame_old_parent in the proof file).  *_subtree: what comes back detached has its own
+   subtree intact. *)
+
+Theorem C02_op_conserves s o s' : consistent s -> wf_op s o -> apply_op s o = Ok s' ->
+  nxt s <= nxt s' /\
+  (forall y, y < nxt s -> kind (hp s' y) = kind (hp s y) /\ txt (hp s' y) = txt (hp s y) /\
+                          (dead (hp s y) = true -> dead (hp s' y) = true)) /\
+  (forall x, live s' x -> live s x \/ nxt s <= x) /\
+  (destroying o = false ->
+     (forall y, y < nxt s -> meta (hp s' y) = meta (hp s y)) /\ (forall x, live s x -> live s' x)).
+Proof. exact (op_conserves s o s'). Qed.
+Print Assumptions C02_op_conserves.
+
+Theorem C02_op_conserves_b s o s' : consistent s -> wf_op_b s o = true -> apply_op s o = Ok s' ->
+  destroying o = false ->
+  nxt s <= nxt s' /\ (forall x, live s x -> live s' x) /\ (forall x, live s' x -> live s x \/ nxt s <= x).
+Proof. exact (op_conserves_b s o s'). Qed.
+Print Assumptions C02_op_conserves_b.
+
+Theorem C02_op_decompose_conserves s x s' : consistent s -> live s x -> op_decompose s x = Ok s' ->
+  nxt s' = nxt s /\
+  (forall y, live s' y <-> live s y /\ ~ anc (hp s) x y) /\
+  (forall y, live s y -> anc (hp s) x y -> hp s' y = wiped (hp s y)) /\
+  (forall y, kind (hp s' y) = kind (hp s y) /\ txt (hp s' y) = txt (hp s y) /\
+             (dead (hp s y) = true -> dead (hp s' y) = true)).
+Proof. exact (op_decompose_conserves s x s'). Qed.
+Print Assumptions C02_op_decompose_conserves.
+
+Theorem C02_op_clear_true_conserves s self s' : consistent s -> live s self -> op_clear s self true = Ok s' ->
+  nxt s' = nxt s /\
+  (forall y, live s' y <-> live s y /\ forall c, In c (kids (hp s self)) -> ~ anc (hp s) c y) /\
+  (forall y, live s' y <-> live s y /\ (y = self \/ ~ anc (hp s) self y)) /\
+  (forall y, kind (hp s' y) = kind (hp s y) /\ txt (hp s' y) = txt (hp s y) /\
+             (dead (hp s y) = true -> dead (hp s' y) = true)).
+Proof. exact (op_clear_true_conserves s self s'). Qed.
+Print Assumptions C02_op_clear_true_conserves.
+
+Theorem C02_one_place s : consistent s ->
+  (forall p x, live s p -> (In x (kids (hp s p)) <-> live s x /\ par (hp s x) = Some p)) /\
+  (forall p, live s p -> NoDup (kids (hp s p))) /\
+  (forall p q x, live s p -> live s q -> In x (kids (hp s p)) -> In x (kids (hp s q)) -> p = q) /\
+  (forall p x, live s p -> In x (kids (hp s p)) -> count_occ Nat.eq_dec (kids (hp s p)) x = 1) /\
+  (forall x p, live s x -> par (hp s x) = Some p -> live s p /\ In x (kids (hp s p))).
+Proof. exact (one_place s). Qed.
+Print Assumptions C02_one_place.
+
+Theorem C02_one_place_forest s : consistent s ->
+  exists F, rep F (hp s) /\ NoDup (fids F) /\ (forall x, In x (fids F) <-> live s x) /\
+            (forall x, live s x -> count_occ Nat.eq_dec (fids F) x = 1).
+Proof. exact (one_place_forest s). Qed.
+Print Assumptions C02_one_place_forest.
+
+Theorem C02_history_one_place ops s : consistent s ->
+  let s' := run_history s ops in
+  (forall p x, live s' p -> (In x (kids (hp s' p)) <-> live s' x /\ par (hp s' x) = Some p)) /\
+  (forall p, live s' p -> NoDup (kids (hp s' p))) /\
+  (forall p q x, live s' p -> live s' q -> In x (kids (hp s' p)) -> In x (kids (hp s' q)) -> p = q).
+Proof. exact (history_one_place ops s). Qed.
+Print Assumptions C02_history_one_place.
+
+Theorem C02_history_static  : forall ops s, consistent s ->
+  nxt s <= nxt (run_history s ops) /\
+  (forall y, y < nxt s -> kind (hp (run_history s ops) y) = kind (hp s y) /\ txt (hp (run_history s ops) y) = txt (hp s y) /\
+                          (dead (hp s y) = true -> dead (hp (run_history s ops) y) = true)) /\
+  (forall x, live (run_history s ops) x -> live s x \/ nxt s <= x).
+Proof. exact history_static. Qed.
+Print Assumptions C02_history_static.
+
+Theorem C02_history_conserves  : forall ops s, consistent s -> forallb (fun o => negb (destroying o)) ops = true ->
+  forall x, live s x -> live (run_history s ops) x.
+Proof. exact history_conserves. Qed.
+Print Assumptions C02_history_conserves.
+
+Theorem C02_history_conserves_or  : forall ops s, consistent s -> forall x, live s x ->
+  live (run_history s ops) x \/
+  exists ops1 o ops2, ops = ops1 ++ o :: ops2 /\ destroying o = true /\
+    live (run_history s ops1) x /\ ~ live (step (run_history s ops1) o) x.
+Proof. exact history_conserves_or. Qed.
+Print Assumptions C02_history_conserves_or.
+
+Theorem C02_op_live_exact s o s' : apply_op s o = Ok s' -> destroying o = false ->
+  forall x, live s' x <-> live s x \/ nxt s <= x < nxt s'.
+Proof. exact (op_live_exact s o s'). Qed.
+Print Assumptions C02_op_live_exact.
+
+Theorem C02_history_live_exact  : forall ops s, forallb (fun o => negb (destroying o)) ops = true ->
+  forall x, live (run_history s ops) x <-> live s x \/ nxt s <= x < nxt (run_history s ops).
+Proof. exact history_live_exact. Qed.
+Print Assumptions C02_history_live_exact.
+
+Theorem C02_op_fresh_count s o s' n : apply_op s o = Ok s' -> fresh_count o = Some n -> nxt s' = nxt s + n.
+Proof. exact (op_fresh_count s o s' n). Qed.
+Print Assumptions C02_op_fresh_count.
+
+Theorem C02_op_extract_documented s x s' : consistent s -> live s x -> op_extract s x = Ok s' ->
+  nxt s' = nxt s /\ (forall y, meta (hp s' y) = meta (hp s y)) /\
+  par (hp s' x) = None /\ kids (hp s' x) = kids (hp s x) /\
+  (forall p, par (hp s x) = Some p ->
+     kids (hp s' p) = drop x (kids (hp s p)) /\
+     exists A B, kids (hp s p) = A ++ x :: B /\ kids (hp s' p) = A ++ B /\ ~ In x (A ++ B)) /\
+  (forall q, live s q -> par (hp s x) <> Some q -> kids (hp s' q) = kids (hp s q)) /\
+  (forall y, y <> x -> par (hp s' y) = par (hp s y)).
+Proof. exact (op_extract_documented s x s'). Qed.
+Print Assumptions C02_op_extract_documented.
+
+Theorem C02_op_append_documented s self a s' : consistent s -> wf_op s (OAppend self a) -> op_append s self a = Ok s' ->
+  match a with
+  | AEl c =>
+      kind (hp s c) <> KSoup ->
+      nxt s' = nxt s /\
+      kids (hp s' self) = drop c (kids (hp s self)) ++ [c] /\ par (hp s' c) = Some self /\
+      (forall q, live s q -> q <> self -> kids (hp s' q) = drop c (kids (hp s q))) /\
+      (forall y, y <> c -> par (hp s' y) = par (hp s y))
+  | AStr t =>
+      nxt s' = S (nxt s) /\
+      kids (hp s' self) = kids (hp s self) ++ [nxt s] /\
+      kind (hp s' (nxt s)) = KStr false /\ txt (hp s' (nxt s)) = t /\ dead (hp s' (nxt s)) = false /\
+      par (hp s' (nxt s)) = Some self /\ kids (hp s' (nxt s)) = [] /\
+      (forall q, live s q -> q <> self -> kids (hp s' q) = kids (hp s q)) /\
+      (forall y, y < nxt s -> par (hp s' y) = par (hp s y))
+  end.
+Proof. exact (op_append_documented s self a s'). Qed.
+Print Assumptions C02_op_append_documented.
+
+Theorem C02_op_extend_list_documented s self args cs s' :
+  consistent s -> wf_op s (OExtendList self args) -> elem_args s args cs -> op_extend_list s self args = Ok s' ->
+  nxt s' = nxt s /\
+  kids (hp s' self) = others cs (kids (hp s self)) ++ cs /\
+  (forall q, live s q -> q <> self -> kids (hp s' q) = others cs (kids (hp s q))) /\
+  (forall c, In c cs -> par (hp s' c) = Some self) /\
+  (forall y, ~ In y cs -> par (hp s' y) = par (hp s y)).
+Proof. exact (op_extend_list_documented s self args cs s'). Qed.
+Print Assumptions C02_op_extend_list_documented.
+
+Theorem C02_op_extend_tag_documented s self other s' :
+  consistent s -> wf_op s (OExtendTag self other) -> live s other -> nonsoups s (kids (hp s other)) ->
+  op_extend_tag s self other = Ok s' ->
+  let cs := kids (hp s other) in
+  nxt s' = nxt s /\
+  (other <> self -> kids (hp s' self) = kids (hp s self) ++ cs /\ kids (hp s' other) = []) /\
+  (other = self -> kids (hp s' self) = kids (hp s self)) /\
+  (forall q, live s q -> q <> self -> q <> other -> kids (hp s' q) = kids (hp s q)) /\
+  (forall c, In c cs -> par (hp s' c) = Some self) /\
+  (forall y, ~ In y cs -> par (hp s' y) = par (hp s y)).
+Proof. exact (op_extend_tag_documented s self other s'). Qed.
+Print Assumptions C02_op_extend_tag_documented.
+
+Theorem C02_op_replace_with_frame s self p args cs s' :
+  consistent s -> wf_op s (OReplaceWith self args) -> elem_args s args cs -> ~ In self cs ->
+  par (hp s self) = Some p -> op_replace_with s self args = Ok s' ->
+  nxt s' = nxt s /\ par (hp s' self) = None /\
+  (forall q, live s q -> q <> p -> kids (hp s' q) = others cs (kids (hp s q))) /\
+  (forall c, In c cs -> par (hp s' c) = Some p) /\
+  (forall y, live s y -> y <> self -> ~ In y cs -> par (hp s' y) = par (hp s y)).
+Proof. exact (op_replace_with_frame s self p args cs s'). Qed.
+Print Assumptions C02_op_replace_with_frame.
+
+Theorem C02_op_wrap_documented s self w p s' :
+  consistent s -> wf_op s (OWrap self w) -> par (hp s self) = Some p -> kind (hp s self) <> KSoup ->
+  op_wrap s self w = Ok s' ->
+  nxt s' = nxt s /\
+  par (hp s' self) = Some w /\ par (hp s' w) = Some p /\
+  kids (hp s' w) = kids (hp s w) ++ [self] /\
+  kids (hp s' p) = replace_spec self [w] (kids (hp s p)) /\
+  (forall P Q, kids (hp s p) = P ++ self :: Q -> kids (hp s' p) = drop w P ++ w :: drop w Q) /\
+  (forall q, live s q -> q <> p -> q <> w -> kids (hp s' q) = drop w (kids (hp s q))) /\
+  (forall y, live s y -> y <> self -> y <> w -> par (hp s' y) = par (hp s y)).
+Proof. exact (op_wrap_documented s self w p s'). Qed.
+Print Assumptions C02_op_wrap_documented.
+
+Theorem C02_op_unwrap_documented s self p s' :
+  consistent s -> wf_op s (OUnwrap self) -> par (hp s self) = Some p -> nonsoups s (kids (hp s self)) ->
+  op_unwrap s self = Ok s' ->
+  nxt s' = nxt s /\ par (hp s' self) = None /\ kids (hp s' self) = [] /\
+  (forall A B, kids (hp s p) = A ++ self :: B -> kids (hp s' p) = A ++ kids (hp s self) ++ B) /\
+  (forall c, In c (kids (hp s self)) -> par (hp s' c) = Some p) /\
+  (forall q, live s q -> q <> p -> q <> self -> kids (hp s' q) = kids (hp s q)) /\
+  (forall y, y <> self -> ~ In y (kids (hp s self)) -> par (hp s' y) = par (hp s y)).
+Proof. exact (op_unwrap_documented s self p s'). Qed.
+Print Assumptions C02_op_unwrap_documented.
+
+Theorem C02_op_clear_documented s self s' : consistent s -> live s self -> op_clear s self false = Ok s' ->
+  nxt s' = nxt s /\ (forall y, meta (hp s' y) = meta (hp s y)) /\
+  kids (hp s' self) = [] /\
+  (forall c, In c (kids (hp s self)) -> par (hp s' c) = None /\ kids (hp s' c) = kids (hp s c)) /\
+  (forall q, live s q -> q <> self -> kids (hp s' q) = kids (hp s q)) /\
+  (forall y, ~ In y (kids (hp s self)) -> par (hp s' y) = par (hp s y)).
+Proof. exact (op_clear_documented s self s'). Qed.
+Print Assumptions C02_op_clear_documented.
+
+Theorem C02_op_set_string_documented s self t s' :
+  consistent s -> wf_op s (OSetString self t) -> op_set_string s self t = Ok s' ->
+  nxt s' = S (nxt s) /\ kids (hp s' self) = [nxt s] /\
+  kind (hp s' (nxt s)) = KStr false /\ txt (hp s' (nxt s)) = t /\ dead (hp s' (nxt s)) = false /\
+  par (hp s' (nxt s)) = Some self /\ kids (hp s' (nxt s)) = [] /\
+  (forall c, In c (kids (hp s self)) -> par (hp s' c) = None /\ kids (hp s' c) = kids (hp s c)) /\
+  (forall q, live s q -> q <> self -> kids (hp s' q) = kids (hp s q)) /\
+  (forall y, y < nxt s -> ~ In y (kids (hp s self)) -> par (hp s' y) = par (hp s y)).
+Proof. exact (op_set_string_documented s self t s'). Qed.
+Print Assumptions C02_op_set_string_documented.
+
+Theorem C02_op_decompose_documented s x s' : consistent s -> live s x -> op_decompose s x = Ok s' ->
+  (forall y, live s y -> anc (hp s) x y -> hp s' y = wiped (hp s y)) /\
+  (forall p, par (hp s x) = Some p -> kids (hp s' p) = drop x (kids (hp s p))) /\
+  (forall q, live s q -> ~ anc (hp s) x q -> par (hp s x) <> Some q -> kids (hp s' q) = kids (hp s q)) /\
+  (forall y, ~ anc (hp s) x y -> par (hp s' y) = par (hp s y)).
+Proof. exact (op_decompose_documented s x s'). Qed.
+Print Assumptions C02_op_decompose_documented.
+
+Theorem C02_op_clear_true_documented s self s' : consistent s -> live s self -> op_clear s self true = Ok s' ->
+  kids (hp s' self) = [] /\ par (hp s' self) = par (hp s self) /\
+  (forall q, live s q -> ~ anc (hp s) self q -> kids (hp s' q) = kids (hp s q) /\ par (hp s' q) = par (hp s q)).
+Proof. exact (op_clear_true_documented s self s'). Qed.
+Print Assumptions C02_op_clear_true_documented.
+
+Theorem C02_op_insert_before_frame s self p args cs s' :
+  consistent s -> wf_op s (OInsertBefore self args) -> elem_args s args cs -> par (hp s self) = Some p ->
+  op_insert_before s self args = Ok s' ->
+  nxt s' = nxt s /\
+  (forall q, live s q -> q <> p -> kids (hp s' q) = others cs (kids (hp s q))) /\
+  (forall c, In c cs -> par (hp s' c) = Some p) /\
+  (forall y, ~ In y cs -> par (hp s' y) = par (hp s y)).
+Proof. exact (op_insert_before_frame s self p args cs s'). Qed.
+Print Assumptions C02_op_insert_before_frame.
+
+Theorem C02_op_insert_after_frame s self p args cs s' :
+  consistent s -> wf_op s (OInsertAfter self args) -> elem_args s args cs -> par (hp s self) = Some p ->
+  op_insert_after s self args = Ok s' ->
+  nxt s' = nxt s /\
+  (forall q, live s q -> q <> p -> kids (hp s' q) = others cs (kids (hp s q))) /\
+  (forall c, In c cs -> par (hp s' c) = Some p) /\
+  (forall y, ~ In y cs -> par (hp s' y) = par (hp s y)).
+Proof. exact (op_insert_after_frame s self p args cs s'). Qed.
+Print Assumptions C02_op_insert_after_frame.
+
+Theorem C02_op_extract_subtree s x s' : consistent s -> live s x -> op_extract s x = Ok s' ->
+  (forall f, abs_tree f (hp s') x = abs_tree f (hp s) x) /\
+  (forall y, anc (hp s) x y -> y <> x -> par (hp s' y) = par (hp s y)).
+Proof. exact (op_extract_subtree s x s'). Qed.
+Print Assumptions C02_op_extract_subtree.
+
+Theorem C02_op_clear_subtree s self s' c : consistent s -> live s self -> op_clear s self false = Ok s' ->
+  In c (kids (hp s self)) -> forall f, abs_tree f (hp s') c = abs_tree f (hp s) c.
+Proof. exact (op_clear_subtree s self s' c). Qed.
+Print Assumptions C02_op_clear_subtree.
+
+Theorem C02_op_set_string_subtree s self t s' c : consistent s -> wf_op s (OSetString self t) ->
+  op_set_string s self t = Ok s' ->
+  In c (kids (hp s self)) -> forall f, abs_tree f (hp s') c = abs_tree f (hp s) c.
+Proof. exact (op_set_string_subtree s self t s' c). Qed.
+Print Assumptions C02_op_set_string_subtree.
+
+Theorem C02_op_unwrap_subtree s self p s' c :
+  consistent s -> wf_op s (OUnwrap self) -> par (hp s self) = Some p -> nonsoups s (kids (hp s self)) ->
+  op_unwrap s self = Ok s' ->
+  In c (kids (hp s self)) -> forall f, abs_tree f (hp s') c = abs_tree f (hp s) c.
+Proof. exact (op_unwrap_subtree s self p s' c). Qed.
+Print Assumptions C02_op_unwrap_subtree.
+
+Theorem C02_op_replace_with_subtree s self p args cs s' :
+  consistent s -> wf_op s (OReplaceWith self args) -> elem_args s args cs -> ~ In self cs ->
+  par (hp s self) = Some p -> op_replace_with s self args = Ok s' ->
+  (forall c, In c cs -> ~ anc (hp s) self c) ->
+  forall f, abs_tree f (hp s') self = abs_tree f (hp s) self.
+Proof. exact (op_replace_with_subtree s self p args cs s'). Qed.
+Print Assumptions C02_op_replace_with_subtree.
+
+Theorem C02_op_wrap_subtree s self w p s' :
+  consistent s -> wf_op s (OWrap self w) -> par (hp s self) = Some p -> kind (hp s self) <> KSoup ->
+  op_wrap s self w = Ok s' -> ~ anc (hp s) self w ->
+  forall f, abs_tree f (hp s') self = abs_tree f (hp s) self.
+Proof. exact (op_wrap_subtree s self w p s'). Qed.
+Print Assumptions C02_op_wrap_subtree.
+
+Theorem C02_op_insert_mixed_documented s self pos args s' :
+  consistent s -> wf_op s (OInsert self pos args) -> Forall (nonsoup s) args -> NoDup (els args) ->
+  op_insert s self pos args = Ok s' ->
+  let ids := arg_ids (nxt s) args in
+  nxt s' = nxt s + nstr args /\
+  kids (hp s' self) = splice_spec pos ids (kids (hp s self)) /\
+  (forall q, live s q -> q <> self -> kids (hp s' q) = others ids (kids (hp s q))) /\
+  (forall c, In c ids -> par (hp s' c) = Some self) /\
+  (forall y, y < nxt s -> ~ In y ids -> par (hp s' y) = par (hp s y)).
+Proof. exact (op_insert_mixed_documented s self pos args s'). Qed.
+Print Assumptions C02_op_insert_mixed_documented.
+
+Theorem C02_op_extend_list_mixed_documented s self args s' :
+  consistent s -> wf_op s (OExtendList self args) -> Forall (nonsoup s) args -> NoDup (els args) ->
+  op_extend_list s self args = Ok s' ->
+  let ids := arg_ids (nxt s) args in
+  nxt s' = nxt s + nstr args /\
+  kids (hp s' self) = others ids (kids (hp s self)) ++ ids /\
+  (forall q, live s q -> q <> self -> kids (hp s' q) = others ids (kids (hp s q))) /\
+  (forall c, In c ids -> par (hp s' c) = Some self) /\
+  (forall y, y < nxt s -> ~ In y ids -> par (hp s' y) = par (hp s y)).
+Proof. exact (op_extend_list_mixed_documented s self args s'). Qed.
+Print Assumptions C02_op_extend_list_mixed_documented.
+
+Theorem C02_op_insert_before_mixed_documented s self p args s' :
+  consistent s -> wf_op s (OInsertBefore self args) -> Forall (nonsoup s) args -> NoDup (els args) ->
+  par (hp s self) = Some p -> op_insert_before s self args = Ok s' ->
+  let ids := arg_ids (nxt s) args in
+  nxt s' = nxt s + nstr args /\
+  kids (hp s' p) = before_spec self ids (kids (hp s p)) /\
+  (forall q, live s q -> q <> p -> kids (hp s' q) = others ids (kids (hp s q))) /\
+  (forall c, In c ids -> par (hp s' c) = Some p) /\
+  (forall y, y < nxt s -> ~ In y ids -> par (hp s' y) = par (hp s y)).
+Proof. exact (op_insert_before_mixed_documented s self p args s'). Qed.
+Print Assumptions C02_op_insert_before_mixed_documented.
+
+Theorem C02_op_insert_after_mixed_documented s self p args s' :
+  consistent s -> wf_op s (OInsertAfter self args) -> Forall (nonsoup s) args -> NoDup (els args) ->
+  par (hp s self) = Some p -> op_insert_after s self args = Ok s' ->
+  let ids := arg_ids (nxt s) args in
+  nxt s' = nxt s + nstr args /\
+  kids (hp s' p) = after_spec self ids (kids (hp s p)) /\
+  (forall q, live s q -> q <> p -> kids (hp s' q) = others ids (kids (hp s q))) /\
+  (forall c, In c ids -> par (hp s' c) = Some p) /\
+  (forall y, y < nxt s -> ~ In y ids -> par (hp s' y) = par (hp s y)).
+Proof. exact (op_insert_after_mixed_documented s self p args s'). Qed.
+Print Assumptions C02_op_insert_after_mixed_documented.
+
+Theorem C02_op_replace_with_mixed_documented s self p args s' :
+  consistent s -> wf_op s (OReplaceWith self args) -> Forall (nonsoup s) args -> NoDup (els args) ->
+  ~ In (AEl self) args -> par (hp s self) = Some p -> op_replace_with s self args = Ok s' ->
+  let ids := arg_ids (nxt s) args in
+  nxt s' = nxt s + nstr args /\ par (hp s' self) = None /\
+  kids (hp s' p) = replace_spec self ids (kids (hp s p)) /\
+  (forall q, live s q -> q <> p -> kids (hp s' q) = others ids (kids (hp s q))) /\
+  (forall c, In c ids -> par (hp s' c) = Some p) /\
+  (forall y, y < nxt s -> y <> self -> ~ In y ids -> par (hp s' y) = par (hp s y)).
+Proof. exact (op_replace_with_mixed_documented s self p args s'). Qed.
+Print Assumptions C02_op_replace_with_mixed_documented.
